@@ -37,35 +37,35 @@ def sweep(ctx, chunk, nchunks, thorough, model_every):
                 ctx.expect(not r.ok, "response with byte %d := %02x is rejected" % (off, x))
 
 
-def splices(ctx):
+def splices(ctx, idu=None, ids=None):
     ctx.nontrivial = True
     L, rnd = ctx.L, ctx.rnd
-    f = honest_flow(ctx, b"pw", b"alice", b"context", None, None)
+    f = honest_flow(ctx, b"pw", b"alice", b"context", idu, ids)
     cl, ke2, ke1 = f.client_login, f.ke2, f.ke1
 
     def srv(setup, file, ke1_, cred=b"alice", context=b"context"):
-        r = ctx.call("srv_login_start", ctx.tape(L.Nh + 64 + L.Nsk + 16), setup, file, ke1_, cred, context, None, None)
+        r = ctx.call("srv_login_start", ctx.tape(L.Nh + 64 + L.Nsk + 16), setup, file, ke1_, cred, context, idu, ids)
         return r.b(1) if r.ok else None
     # another response for the same request (fresh server randomness), and one for another session's request
     ke2_same_req = srv(f.setup, f.file, ke1)
-    g = honest_flow(ctx, b"pw", b"alice", b"context", None, None, setup=f.setup)   # re-registration + its own login
+    g = honest_flow(ctx, b"pw", b"alice", b"context", idu, ids, setup=f.setup)   # re-registration + its own login
     ke2_other_session = g.ke2
-    u2 = honest_flow(ctx, b"pw2", b"bob", b"context", None, None, setup=f.setup)
+    u2 = honest_flow(ctx, b"pw2", b"bob", b"context", idu, ids, setup=f.setup)
     ke2_other_user = srv(f.setup, u2.file, ke1, b"bob")
-    s2 = honest_flow(ctx, b"pw", b"alice", b"context", None, None)
+    s2 = honest_flow(ctx, b"pw", b"alice", b"context", idu, ids)
     ke2_other_server = srv(s2.setup, s2.file, ke1)
     ke2_fake = srv(f.setup, None, ke1)
     ctx.counting = True
 
     def reject(m, what, klass=None):
-        r = ctx.call("login_finish", cl, b"pw", m, b"context", None, None, "~")
+        r = ctx.call("login_finish", cl, b"pw", m, b"context", idu, ids, "~")
         ctx.expect(not r.ok, "response %s is rejected" % what)
         if klass and not r.ok:
             ctx.expect(r.err == klass, "response %s is rejected with %s (got %s)" % (what, klass, r.err))
-    r = ctx.call("login_finish", cl, b"pw", ke2, b"context", None, None, "~")
+    r = ctx.call("login_finish", cl, b"pw", ke2, b"context", idu, ids, "~")
     ctx.expect(r.ok, "the genuine response is accepted")
     # a second, genuine response to the *same* request is also a genuine response for this client
-    r = ctx.call("login_finish", cl, b"pw", ke2_same_req, b"context", None, None, "~")
+    r = ctx.call("login_finish", cl, b"pw", ke2_same_req, b"context", idu, ids, "~")
     ctx.expect(r.ok, "a fresh genuine response to the same request is accepted")
     fb = field_bounds(L)
     for name, other in (("same-request", ke2_same_req), ("other-session", ke2_other_session), ("other-user", ke2_other_user),
@@ -88,6 +88,13 @@ def splices(ctx):
     for (lo, hi, nm) in ((fb[5][0], fb[5][1], "server MAC"), (tag_lo, tag_lo + L.Nh, "masked envelope tag"), (fb[2][0], fb[2][0] + L.Npk, "masked server key")):
         for label, m in structured_alterations(rnd, ke2, lo, hi, n_pairs=12, n_random=40):
             reject(m, "with %s altered: %s" % (nm, label))
+    # encodings of group elements are where malleability hides (ignored high bits, sign bits, tags, non-reduced values):
+    # every bit of the first and last byte of each element field, plainly and under the mask
+    for (lo, hi, nm) in ((fb[0][0], fb[0][1], "evaluation element"), (fb[4][0], fb[4][1], "server ephemeral key"),
+                         (fb[2][0], fb[2][0] + L.Npk, "masked server static key")):
+        for pos in (lo, hi - 1):
+            for bit in range(8):
+                reject(ke2[:pos] + bytes([ke2[pos] ^ (1 << bit)]) + ke2[pos + 1:], "with bit %d of byte %d (%s) flipped" % (bit, pos, nm))
     # re-randomised fields
     for i, (a, b) in enumerate(fb):
         if i in (0, 4):
@@ -96,7 +103,7 @@ def splices(ctx):
     # reflected request: evaluation element := the client's own blinded element
     reject(ke1[:L.Noe] + ke2[L.Noe:], "reflecting the blinded element", "Reflected")
     # wrong context / identities on the client side also reject the genuine response
-    r = ctx.call("login_finish", cl, b"pw", ke2, b"other", None, None, "~")
+    r = ctx.call("login_finish", cl, b"pw", ke2, b"other", idu, ids, "~")
     ctx.expect(not r.ok, "genuine response under another context is rejected")
 
 
@@ -105,8 +112,9 @@ def cases(tier, seed):
     for i, s in enumerate(suites_for(tier, seed)):
         nch = 4 if tier == "quick" else 16
         for c in range(nch):
-            out.append(dict(script=sweep, suite=s, seed=seed * 100000 + i * 100 + c, mode="pattern",
+            out.append(dict(cross=["login_finish", "srv_login_finish", "srv_reg_start"], cross_limit=60, script=sweep, suite=s, seed=seed * 100000 + i * 100 + c, mode="pattern",
                             params=dict(chunk=c, nchunks=nch, thorough=tier == "thorough",
                                         model_every=(2 if tier == "quick" else 37))))
-        out.append(dict(script=splices, suite=s, seed=seed * 100000 + i * 100 + 99, mode="pattern", params={}))
+        out.append(dict(cross=["login_finish", "srv_login_finish", "srv_reg_start"], cross_limit=60, script=splices, suite=s, seed=seed * 100000 + i * 100 + 99, mode="pattern",
+                        params=dict(zip(("idu", "ids"), [(None, None), (b"cid", None), (None, b"sid"), (b"cid", b"sid")][(i + seed) % 4]))))
     return out
